@@ -272,6 +272,24 @@ Definition load_sel_with (envf : assoc -> string -> option string) (tbl : list e
     end
   end.
 
+(* the two files that can be read: the one named by the config-file option (-C, --config_file, BHS_CONFIG_FILE),
+   if any, as (extension, content) - whatever its name and directory, be it called config.yaml or not - and the
+   default ./config.yaml of the working directory, if present.  The option wins; the default file is read only
+   when no file is selected. *)
+Definition load_files_with (envf : assoc -> string -> option string) (tbl : list entry) (penv : assoc)
+           (opt : option (string * assoc)) (cwd_default : option assoc) : option assoc :=
+  match opt with
+  | Some (ext, filel) => load_sel_with envf tbl penv (Some (false, ext, filel))
+  | None =>
+    match cwd_default with
+    | Some filel => load_sel_with envf tbl penv (Some (true, "yaml", filel))
+    | None => load_sel_with envf tbl penv None
+    end
+  end.
+
+Definition load_files_model := load_files_with env_of.
+Definition load_files_spec := load_files_with env_of_spec.
+
 Definition load_sel_model := load_sel_with env_of.
 Definition load_sel_spec := load_sel_with env_of_spec.
 
